@@ -28,8 +28,10 @@ lot_regex = re.compile(
         (?P<plural>s)?              # Plural 's' (optional).
         \s*
         (?P<lotnum>\d{{1,3}})       # lotnum
-        \s*
-        (?P<acreage>{acreage_subpattern.pattern})?  # Acreage (optional).
+        # Acreage (optional), and any whitespace before it. (Whitespace
+        # only if the acreage follows. See the note at `intervener_regex`
+        # about adjacent whitespace.)
+        (?:\s*(?P<acreage>{acreage_subpattern.pattern}))?
     )
     """, re.IGNORECASE | re.VERBOSE
 )
@@ -48,16 +50,19 @@ multilot_regex = re.compile(
         # groups 'through' and 'and' for those words or equivalent symbols.
         ({intervener_regex.pattern})+   # IMPORTANT: Allow more than one intervener
                                         # to keep matching multilots to the right!
+        \s*                             # (Whitespace after the last intervener.)
 
-        (?P<word_lot_rightmost>(L\.?|Lt\.?|Lot)    # The word or abbreviation "Lot" (optional on the right).
-        (?P<plural_rightmost>s)?)?   # Plural 's' (optional).
-        \s*
+        (?:
+            (?P<word_lot_rightmost>(L\.?|Lt\.?|Lot)    # The word or abbreviation "Lot" (optional on the right).
+            (?P<plural_rightmost>s)?)   # Plural 's' (optional).
+            \s*    # (Whitespace only after the word "Lot".)
+        )?
         (?P<lotnum_rightmost>\d{{1,3}})     # lotnum (rightmost)
-        \s*
-        
+
         # Note: This is named 'acreage_notfirst' because it is optional
         # and may not exist on the actually rightmost lot.
-        (?P<acreage_notfirst>{acreage_subpattern.pattern})?  # Acreage (optional).
+        # Acreage (optional), and any whitespace before it.
+        (?:\s*(?P<acreage_notfirst>{acreage_subpattern.pattern}))?
     )*
     """, re.IGNORECASE | re.VERBOSE)
 
